@@ -44,6 +44,20 @@ def family_op(ctx, rng, norb, fam, FermionOperator, hermitian_conjugated):
             c = U.gint(rng, zero_p=0) or 1
             for s in (0, 1):
                 add([(2 * i + s, 1), (2 * j + s, 0)], c)
+    elif fam == "gso1-zero-sum":
+        # spin-conserving hopping plus two spin-flip terms with opposite coefficients: the alpha-beta block of the one-body
+        # matrix is not zero but its entries sum to zero
+        for _ in range(rng.randint(1, 3)):
+            i, j, s_ = rng.randrange(norb), rng.randrange(norb), rng.randrange(2)
+            add([(2 * i + s_, 1), (2 * j + s_, 0)], U.gint(rng, zero_p=0) or 1)
+        if norb > 1:
+            pairs = [(2 * a_, 2 * b_ + 1) for a_ in range(norb) for b_ in range(norb)]
+            (p1, q1), (p2, q2) = rng.sample(pairs, 2)
+            cfl = float(rng.choice([1, 2, 3]))
+            add([(p1, 1), (q1, 0)], cfl)
+            add([(p2, 1), (q2, 0)], -cfl)
+        else:
+            add([(0, 1), (1, 0)], 2)
     elif fam == "nearly-restricted":
         # one-body operator whose beta block differs from the alpha block by a relative 1e-6 .. 1e-5: not the same
         # operator as the spin-restricted one
@@ -66,6 +80,12 @@ def family_op(ctx, rng, norb, fam, FermionOperator, hermitian_conjugated):
             add([(p, 1), (q, 0)], U.gint(rng, zero_p=0) or 1)
         p, q = rng.randrange(norb) * 2, rng.randrange(norb) * 2 + 1
         add([(p, 1), (q, 0)], 2)
+        if norb > 1 and rng.random() < 0.6:
+            # a second spin-flip term with the opposite coefficient: the alpha-beta block of the one-body matrix then
+            # sums to zero although it is not zero
+            p2, q2 = rng.randrange(norb) * 2, rng.randrange(norb) * 2 + 1
+            if (p2, q2) != (p, q):
+                add([(p2, 1), (q2, 0)], -2)
     elif fam == "diagcoulomb":
         for _ in range(rng.randint(2, 4)):
             p, q = rng.sample(range(nso), 2) if nso > 1 else (0, 0)
@@ -108,7 +128,7 @@ def run(ctx):
                                   sso_hamiltonian, gso_hamiltonian, general_hamiltonian, sparse_hamiltonian)
     d, rng = ctx.driver, ctx.rng
     quick = ctx.tier == "quick"
-    fams = ["diagonal", "restricted1", "sso1", "gso1", "diagcoulomb", "mixed", "mixed", "few", "nearly-restricted"]
+    fams = ["diagonal", "restricted1", "sso1", "gso1", "diagcoulomb", "mixed", "mixed", "few", "nearly-restricted", "gso1-zero-sum"]
     ncases = 96 if quick else 6000
     for case in range(ncases):
         fam = fams[case % len(fams)]
@@ -162,7 +182,7 @@ def run(ctx):
         terms = U.fermionop_terms(op)
         for rep in range(2):
             # Sz-changing expressions need a spin-complete (spin-broken) wavefunction; anything else is refused
-            wk = rng.choice(["single", "multi"]) if fam != "gso1" else "spinbroken"
+            wk = rng.choice(["single", "multi"]) if fam not in ("gso1", "gso1-zero-sum") else "spinbroken"
             w = C01.make_wfn(ctx, wk, norb, rng)
             entries = U.wfn_entries(w)
             want = U.spec_apply(d, norb, entries, terms, e0_arg)
@@ -204,7 +224,7 @@ def run(ctx):
                 for route in ("from_openfermion", "sparse"):
                     for conv in range(2):
                         if route == "sparse":
-                            h2 = fqe.get_sparse_hamiltonian(src, conserve_spin=(fam != "gso1"), e_0=e0_arg)
+                            h2 = fqe.get_sparse_hamiltonian(src, conserve_spin=(fam not in ("gso1", "gso1-zero-sum")), e_0=e0_arg)
                         else:
                             h2 = fqe.get_hamiltonian_from_openfermion(src, norb=norb, conserve_number=True, e_0=e0_arg)
                         ctx.case(("reconvert", case, src_kind, route, conv))
@@ -222,7 +242,7 @@ def run(ctx):
                                          f"e_0 = {h2.e_0()}, expected {ident_s + e0_arg}", dsc)
                             break
                         if conv == 1 and type(h2).__name__ != "DiagonalCoulomb":
-                            wk = "single" if fam != "gso1" else "spinbroken"
+                            wk = "single" if fam not in ("gso1", "gso1-zero-sum") else "spinbroken"
                             w = C01.make_wfn(ctx, wk, norb, rng)
                             want = U.spec_apply(d, norb, U.wfn_entries(w), terms_s, e0_arg)
                             bad = U.compare_wfn(w.apply(h2), want, tol=1e-9)
@@ -248,7 +268,7 @@ def run(ctx):
             ctx.disagree(f"iht-raises:{cls}:{type(exc).__name__}", str(exc), desc)
         # ---- sparse form of the same expression: term list, term splitting and -i t H data, on an object that
         #      has already been used (applied above / here) as well as on a fresh one
-        if fam == "gso1":
+        if fam in ("gso1", "gso1-zero-sum"):
             continue
         try:
             t = 0.25
